@@ -11,7 +11,9 @@ SPEC = {
     'assumptions': ["reading of 'only non-emitting states in between': a run of non-emitting states after the last emitting state (between the last matched observation and the next, unmatched one) is allowed; the code documents that it prefers the longer path there"],
     'deductive': [
         ('K-next(fields obs/obs_ne/length)', 'next', '^fields:(obs|length)'),
-        ('K-first(start fields)', 'first', '^inv:')],
+        ('K-first(start fields)', 'first', '^inv:'),
+        ("non-emitting layers(calls are non-emitting for this observation with the observation segment; emitting for the next)", 'ne_inner', r'^ne-inner:(one-non|layer)'),
+        ("non-emitting chains link to the NEXT observation with an emitting call", 'ne_end', r'^ne-end:one-emitting')],
     'bounded': [
         ('alignment-postcondition', suites.case_C03, 1500, 25000, RULE + '; ' + 'non-trivial = non-empty result with an early stop or a non-emitting state on the path; unique on/off', '')],
 }
